@@ -404,3 +404,12 @@ proof fn lemma_same_states_values<L, V>(a: NfaBuilder<L, V>, b: NfaBuilder<L, V>
 {
     assert forall|q: Seq<L>| walk(b, q) == walk(a, q) by { lemma_walk_same_edges(b, a, q); }
 }
+
+// what a build wrapper establishes about its trie for the pattern list ps with values vs (kinds without shadowing): exactly the listed
+// patterns are registered, each with its value and its length in bytes (used by the C08 unit to relate the two variants)
+spec fn regs<L: EdgeLabel, V>(n: NfaBuilder<L, V>, ps: Seq<Seq<L>>, vs: Seq<V>) -> bool {
+    &&& ps.len() == vs.len() && trie_ok(n)
+    &&& forall|q: Seq<L>| #[trigger] is_registered(n, q) <==> exists|j: int| 0 <= j < ps.len() && #[trigger] ps[j] == q
+    &&& forall|j: int| 0 <= j < ps.len() ==> reg_out(n, #[trigger] ps[j]).unwrap().0 == vs[j]
+    &&& forall|q: Seq<L>| #[trigger] is_registered(n, q) ==> reg_out(n, q).unwrap().1@ == byte_len(q)
+}
